@@ -300,7 +300,8 @@ impl Sys {
             }
             "approve" => {
                 let (o, sp) = (addr("from"), addr("sp"));
-                let until = if n(op, "until") > 0 { (self.base as u64 + n(op, "until") as u64).min(u32::MAX as u64) as u32 } else { 0 };
+                // (i32::MAX stands for u32::MAX, "never": trace numbers are 32-bit)
+                let until = if n(op, "until") == i32::MAX as i64 { u32::MAX } else if n(op, "until") > 0 { (self.base as u64 + n(op, "until") as u64).min(u32::MAX as u64) as u32 } else { 0 };
                 set_auth_same(e, &who, &Inv::new(&c, "approve", args(e, (o.clone(), sp.clone(), amt, until))));
                 token_call!(self, cl => res_of(&cl.try_approve(&o, &sp, &amt, &until)))
             }
@@ -437,7 +438,7 @@ fn main() {
                 // allowances that lapsed by the passing of time since the previous call: (owner, spender, amount)
                 let mut lapsed: Vec<(&str, &str, i64)> = vec![];
                 t.reset(sys.reset_event(regime));
-                let amts: Vec<i64> = if regime == "O" { vec![0, 1, 1, 2, 3, 5, 6, 7, 7, -1] } else { vec![-1, 0, 1, 1, 2, 2, 3, 4, 7] };
+                let amts: Vec<i64> = if regime == "O" { vec![0, 1, 1, 2, 3, 5, 6, 7, 7, -1, -8] /* -8 units = i128::MIN */ } else { vec![-1, 0, 1, 1, 2, 2, 3, 4, 7] };
                 let mut holders: Vec<&str> = vec![];
                 let mut bals: std::collections::BTreeMap<String, i64> = Default::default();
                 let mut pairs: Vec<(&str, &str, i64)> = vec![]; // (owner, spender, live allowance)
@@ -502,7 +503,7 @@ fn main() {
                             let amt = if r.gen_bool(0.6) { amt.max(1) } else { amt };
                             // exactly i128::MAX (8 units) is a popular "unlimited" allowance
                             let amt = if regime == "O" { if r.gen_bool(0.3) { 8 } else { amt.min(7) } } else { amt };
-                            json!({"op": "approve", "from": from, "to": "none", "sp": sp, "amt": amt, "until": (now + k + du).max(0), "auth": auth, "k": k})
+                            json!({"op": "approve", "from": from, "to": "none", "sp": sp, "amt": amt, "until": if r.gen_ratio(1, 30) { i32::MAX as i64 } else { (now + k + du).max(0) }, "auth": auth, "k": k})
                         }
                         "burn" => {
                             if good { auth.push(from.into()); }
